@@ -1004,7 +1004,9 @@ var examples = []string{
 	`.Individuals | .Name | .String`, `.Individuals | Length`, `.Individuals | First(2) | .Name`, `.Individuals | Last(1)`,
 	`.Individuals | Only(.Name | .String = "John Smith") | .Pointer`, `Names are .Individuals | .Name; Names | .GivenName`,
 	`.Individuals | { name: .Name | .String, born: .Birth | .String }`, `Combine(.Individuals | .Births, .Individuals | .Deaths)`,
-	`.Families | .Husband | .String`, `?`, `.Individuals | ?`, `.Individuals | NodesWithTagPath(BIRT, DATE)`, `.Individuals | .Nodes | Only(.Tag = "NAME")`,
+	`.Families | .Husband | .String`, `?`, `.Individuals | ?`, `.Individuals | NodesWithTagPath(BIRT, DATE)`, `.Individuals | NodesWithTagPath("BIRT", "DATE")`, `.Individuals | NodesWithTagPath("DEAT")`,
+	`Births are .Individuals | NodesWithTagPath("BIRT", "DATE") | {type: "birth", date: .String}; Deaths are .Individuals | NodesWithTagPath("DEAT", "DATE") | {type: "death", date: .String}; Combine(Births, Deaths)`,
+	`.Individuals | NodesWithTagPath("BIRT", "DATE") | .Value`, `.Nodes | .Tag | .String`, `.Nodes | .Nodes | Only(.Value != "") | .Tag`, `.Individuals | .Nodes | Only(.Tag = "NAME")`,
 	`MergeDocumentsAndIndividuals(Document1, Document2) | .Individuals | Length`, `Document1 | .Individuals | .Name`, `.Individuals | .Age | .String`,
 	`X is X; X`, `A is B; B is A; A`, `.Individuals | .Nodes | First(1) | .Nodes`, `Combine | ?`, `Combine(.Individuals, 3)`, `First`, `Only()`, `Last(-1)`,
 	`.Individuals | Only(.Spouses | Length > 0) | { name: .Name | .String, n: .Children | Length }`, `.Nodes | .Pointer = "I1"`, `.Individuals | .Sex | .Value`,
